@@ -73,6 +73,9 @@ func Start(id, level string) *Run {
 		}
 	}
 	r.deadline = r.start.Add(budget)
+	if current == nil {
+		current = r
+	}
 	return r
 }
 
@@ -242,8 +245,41 @@ func Fatal(format string, a ...any) {
 		fmt.Printf("freerun: ignored: "+format+"\n", a...)
 		return
 	}
+	if r := current; r != nil && r.unlisted() > 0 {
+		// A guard of the harness (fixture sanity, vacuity, set-up) fired AFTER the
+		// run had recorded violations that are not known findings: on a tree that
+		// breaks the property such a guard is usually a consequence of the defect,
+		// and the verdict must not be lost to exit code 2. Report what was found.
+		fmt.Printf("NOTE: a harness guard fired after violations had been recorded (reported below): "+format+"\n", a...)
+		r.Cov["exhaustive"] = false
+		r.Cov["aborted_by_harness_guard"] = fmt.Sprintf(format, a...)
+		r.Finish(nil)
+	}
 	fmt.Printf("CHECK-ERROR: "+format+"\n", a...)
 	os.Exit(2)
+}
+
+// current is the run created by the first Start of the process.
+var current *Run
+
+// unlisted counts recorded violations that are not known findings.
+func (r *Run) unlisted() int {
+	r.mu.Lock()
+	defer r.mu.Unlock()
+	ks := loadKnown()
+	n := 0
+	for _, k := range r.order {
+		known := false
+		for _, kn := range ks {
+			if kn.prop == r.ID && kn.key == r.viols[k].Key {
+				known = true
+			}
+		}
+		if !known {
+			n++
+		}
+	}
+	return n
 }
 
 // FreeRun reports the number of free-running (scheduler-less) repetitions of
